@@ -82,9 +82,12 @@ Writes(i) ==
      \cup (IF i.mn \in {"pop", "ldm"} THEN i.list ELSE {})
      \cup (IF i.mn \in {"push", "pop"} THEN {SP} ELSE {})
      \cup (IF i.mn = "bl" \/ (i.mn = "blx") THEN {LR} ELSE {})) \ {NoReg}
-\* documented implicit state: what the encoding fixes, the pc, the link register of a call
+\* documented implicit state: for reads the registers the encoding itself fixes (sp / pc relative
+\* forms); writes are never exempt, except that every instruction changes the pc.  The link register
+\* written by a call is kept apart so that it is judged by a clause of its own.
 ImplicitR(i) == i.impl
-ImplicitW(i) == i.impl \cup {PC} \cup (IF i.mn \in {"bl", "blx"} THEN {LR} ELSE {})
+ImplicitW(i) == {PC}
+LinkW(i) == IF i.mn \in {"bl", "blx"} THEN {LR} ELSE {}
 
 -----------------------------------------------------------------------------
 (* Operand tokens of a printed line: <<kind, number, text>>, kind in          *)
